@@ -19,7 +19,7 @@ func init() {
 	core.Register(&core.Simple{
 		Id: "C08", Lvl: "exploration", Quick: 640, Thorough: 20000, PerBatch: 160, Width: 160, Timeout: 1800,
 		RuleText: "each case downloads one generated file (sizes 0,1,2,511,512,513,32767,32768,32769,65536,1 MiB and random, thorough up to 16 MiB; names over ASCII and Mac-Roman high bytes, in the root or a sub-folder; with/without stored info and resource forks) in one mode: full (a few of them read by a peer with a 32 KiB window that stalls for 11 s mid-transfer), resume at k in {0,1,size/2,size-1,size,random}, or preview; the request goes through the real connection loop, the transfer through the real handleFileTransfer; a reference client reads the whole stream until the handler returns and a reference parser checks header consistency, exactly file[k:], resource fork framing, and the reply's size fields. distinct = (size class, mode, forks, name class); non-trivial = size > 0",
-		Case: runCase,
+		Case:     runCase,
 	})
 }
 
